@@ -496,3 +496,25 @@ func readLog(path string, results map[int]*Res) (begun map[int]bool, done bool) 
 	}
 	return
 }
+
+// BuildInDrv copies the in-module driver into the scratch copy of the repository and builds it.
+func (e *Env) BuildInDrv(race bool) (string, error) {
+	dir := filepath.Join(e.St.Repo, "verifdrv")
+	if err := os.MkdirAll(dir, 0o755); err != nil {
+		return "", err
+	}
+	if err := os.WriteFile(filepath.Join(dir, "main.go"), drivers.InDrv, 0o644); err != nil {
+		return "", err
+	}
+	name := "indrv"
+	args := []string{"build", "-tags", "verif", "-o", filepath.Join(e.St.Bin, name)}
+	if race {
+		name = "indrv-race"
+		args = []string{"build", "-tags", "verif", "-race", "-o", filepath.Join(e.St.Bin, name)}
+	}
+	args = append(args, "./verifdrv")
+	if out, err := stage.GoRun(e.St.Repo, nil, args...); err != nil {
+		return "", fmt.Errorf("in-module driver build failed: %v\n%s", err, out)
+	}
+	return filepath.Join(e.St.Bin, name), nil
+}
